@@ -145,6 +145,8 @@ class MultiConfig(object):
             if vm in self.cached_fcn:
                 return self.cached_fcn[vm]
         fcns = self.get_fcns(datas=datas, vm=vm, batch=batch)
+        # collect bound_dic / gauss_constr_dic of the configs (filled by get_amplitudes)
+        self.get_amplitudes(vm=vm)
         fcn = CombineFCN(fcns=fcns, gauss_constr=self.gauss_constr_dic)
         if datas is None:
             self.cached_fcn[vm] = fcn
